@@ -147,6 +147,35 @@ fn node_containers(n: &Node, p: &Path, out: &mut Vec<(Path, CKind)>, in_value: b
     }
 }
 
+/// a placeholder slot (`Item::None`) created by mutable indexing without assignment: invisible to
+/// every observation, but it keeps its position for a later insert of the same key
+const PH: &str = "\u{0}<placeholder>";
+fn ph() -> Node {
+    Node::Str(PH.to_string())
+}
+fn is_ph(n: &Node) -> bool {
+    matches!(n, Node::Str(s) if s == PH)
+}
+fn strip_ph(t: &Tbl) -> Tbl {
+    let mut out = Tbl::new(t.kind);
+    out.order_ambiguous = t.order_ambiguous;
+    for (k, n) in &t.entries {
+        if is_ph(n) {
+            continue;
+        }
+        out.entries.push((k.clone(), strip_ph_node(n)));
+    }
+    out
+}
+fn strip_ph_node(n: &Node) -> Node {
+    match n {
+        Node::Table(t) => Node::Table(strip_ph(t)),
+        Node::Aot(a) => Node::Aot(a.iter().map(strip_ph).collect()),
+        Node::Array(a) => Node::Array(a.iter().map(strip_ph_node).collect()),
+        o => o.clone(),
+    }
+}
+
 const NEW_KEYS: [&str; 6] = ["n1", "n2", "n3", "a", "b", "new-key"];
 
 /// source line fragments of entries that no edit has touched yet
@@ -213,7 +242,7 @@ fn step(s: &mut State, t: &mut Tape) -> Result<Option<&'static str>, Failure> {
     match kind {
         CKind::Table => {
             let keys: Vec<String> = mtable(mnav(&mut s.model, &path).ok_or_else(|| hf("model nav"))?).ok_or_else(|| hf("model table"))?.entries.iter().map(|e| e.0.clone()).collect();
-            let op = t.below(9);
+            let op = t.below(10);
             let table = as_table(nav_mut(&mut s.doc, &path).ok_or_else(|| hf("doc nav"))?).ok_or_else(|| hf("doc table"))?;
             let mt = mtable(mnav(&mut s.model, &path).unwrap()).unwrap();
             match op {
@@ -308,6 +337,18 @@ fn step(s: &mut State, t: &mut Tape) -> Result<Option<&'static str>, Failure> {
                     s.log.push(format!("{}.sort_values()", path_str(&path)));
                     Ok(Some("table.sort_values"))
                 }
+                9 => {
+                    // auto-vivification probe: mutable indexing without assigning creates a
+                    // placeholder that must stay invisible
+                    let k = t.pick(&NEW_KEYS).to_string();
+                    if mt.index_of(&k).is_some() {
+                        return Ok(None);
+                    }
+                    let _ = &mut table[k.as_str()];
+                    mt.entries.push((k.clone(), ph()));
+                    s.log.push(format!("{}.index_mut_probe({k:?})", path_str(&path)));
+                    Ok(Some("table.vivify-probe"))
+                }
                 8 if t.chance(1, 3) => {
                     table.fmt();
                     // reformats the key/value decoration of this table's own lines
@@ -322,6 +363,20 @@ fn step(s: &mut State, t: &mut Tape) -> Result<Option<&'static str>, Failure> {
             }
         }
         CKind::Inline => {
+            if t.chance(1, 6) {
+                // auto-vivification probe through Item indexing (only where the inline table is an Item)
+                if let Some(Cur::Item(item)) = nav_mut(&mut s.doc, &path) {
+                    let mt = mtable(mnav(&mut s.model, &path).ok_or_else(|| hf("model nav"))?).ok_or_else(|| hf("model inline"))?;
+                    let k = t.pick(&NEW_KEYS).to_string();
+                    if mt.index_of(&k).is_none() && item.is_inline_table() {
+                        let _ = &mut item[k.as_str()];
+                        mt.entries.push((k.clone(), ph()));
+                        s.log.push(format!("{}.item_index_mut_probe({k:?})", path_str(&path)));
+                        return Ok(Some("inline.vivify-probe"));
+                    }
+                }
+                return Ok(None);
+            }
             let it = as_inline(nav_mut(&mut s.doc, &path).ok_or_else(|| hf("doc nav"))?).ok_or_else(|| hf("doc inline"))?;
             let mt = mtable(mnav(&mut s.model, &path).ok_or_else(|| hf("model nav"))?).ok_or_else(|| hf("model inline"))?;
             let keys: Vec<String> = mt.entries.iter().map(|e| e.0.clone()).collect();
@@ -349,6 +404,10 @@ fn step(s: &mut State, t: &mut Tape) -> Result<Option<&'static str>, Failure> {
                 }
                 2 => {
                     let k = t.pick(&NEW_KEYS).to_string();
+                    if mt.get(&k).map(is_ph).unwrap_or(false) {
+                        // unspecified on a placeholder slot
+                        return Ok(None);
+                    }
                     let (n, v) = new_scalar(&mut s.counter, t);
                     it.get_or_insert(&k, v);
                     if mt.index_of(&k).is_none() {
@@ -638,7 +697,8 @@ fn check_state(s: &State, start_text: &str) -> Result<(), Failure> {
         Verdict::Valid(_) | Verdict::Limit(_) | Verdict::U1(_) => {}
         v => return Err(Failure::new("valid", format!("printed document is not valid TOML per the reference: {}\n{}", v.short(), ctx()), case())),
     }
-    let mut want = expected_after_print(&s.model);
+    let visible = strip_ph(&s.model);
+    let mut want = expected_after_print(&visible);
     // after sort_values the relative order of the table's *sections* is not pinned (the method
     // documents that it does not affect them, "assuming" they carry a document position, which
     // API-created tables do not): compare that table's children as a set, and check separately,
@@ -670,7 +730,7 @@ fn check_state(s: &State, start_text: &str) -> Result<(), Failure> {
     mark_ambiguous(&mut got, &want);
     model::diff_tbl(&got, &want, Cmp::EXACT).map_err(|e| Failure::new("content", format!("printed document does not decode to the original content with the same edits applied: {e}\n{}", ctx()), case()))?;
     // the structure itself reads as the model
-    let mut structure = s.model.clone();
+    let mut structure = visible.clone();
     for p in &s.sorted {
         if let Some(t) = mnav(&mut structure, p).and_then(mtable) {
             mark_all_ambiguous(t);
@@ -839,7 +899,7 @@ pub fn run(args: Args) -> ! {
     finish_run(&mut rep, "edits", run);
     let run = run_tape("C08.f18probe", &prop_f18probe, 3000, args.tier.pick(10_000, 200_000), args.seed, workers());
     finish_run(&mut rep, "f18probe", run);
-    for c in ["table.insert-new", "table.insert-existing", "table.remove", "table.add-table", "table.add-table-under-implicit-or-dotted", "table.retain", "table.sort_values", "inline.insert", "inline.remove", "array.push", "array.insert", "array.replace", "array.replace-last", "array.remove", "aot.push", "aot.remove"] {
+    for c in ["table.vivify-probe", "inline.vivify-probe", "table.insert-new", "table.insert-existing", "table.remove", "table.add-table", "table.add-table-under-implicit-or-dotted", "table.retain", "table.sort_values", "inline.insert", "inline.remove", "array.push", "array.insert", "array.replace", "array.replace-last", "array.remove", "aot.push", "aot.remove"] {
         rep.require_class(c);
     }
     rep.finish()
